@@ -106,7 +106,8 @@ Ret ==
           /\ UNCHANGED <<toks, txt, phase, i, dep, mx, strfor, res>>
 
 \* next(); dec_depth(); Ok(container)
-Close(j) == /\ i' = j + 1 /\ dep' = dep - 1 /\ stk' = Pop /\ pc' = "ret"
+Close(j) == /\ i' = j + 1 /\ stk' = Pop /\ pc' = "ret"
+            /\ dep' = IF "BugDepthLeak" \in Dev /\ Top.kind = "arr" THEN dep ELSE dep - 1       \* a forgotten dec_depth
             /\ UNCHANGED <<toks, txt, phase, mx, strfor, res>>
 
 \* top of parse_array's loop
